@@ -21,6 +21,7 @@ def default_params():
         scripts={'A': [], 'B': []},
         devs=(),
         auto_pop=True,
+        ipv6=False,
         user_anytime=True,
         tick_policy='quiescent',
         max_ticks=4,
@@ -39,7 +40,10 @@ class TcpclWorld(World):
         self.script_pos = {'A': 0, 'B': 0}
         self.results = {'A': [], 'B': []}   # outcomes of user calls (ghost)
         self.ns = {}
-        conn = vnet.StreamConn('c0')
+        if prm.get('ipv6'):
+            conn = vnet.StreamConn('c0', addr0=('fd00::1', 40000, 0, 0), addr1=('fd00::2', 4556, 0, 0))
+        else:
+            conn = vnet.StreamConn('c0')
         conn.sent_log = []
         self.conns.append(conn)
         for (idx, side) in enumerate(SIDES):
